@@ -25,6 +25,23 @@ def run(ctx):
                  ("R5", "level order bookkeeping (Kahn): a node's in-degree is the number of edges into it, it is decremented once per edge of a finished parent, a node is scheduled exactly when it reaches 0 and is then removed")]:
         ctx.rule(r, t)
     r5(ctx, prog)
+    # parent outputs must stay available to every later level: within the level loop the output maps only grow
+    f_ = prog.fn(INNER)
+    if f_ is not None:
+        muts = []
+        for g in [f_] + prog.closures_of(f_):
+            for bb, t in g.calls():
+                if g.blocks[bb]["cleanup"]:
+                    continue
+                tys = [M.norm_ty(x) for x in t.get("arg_tys", [])]
+                if tys and re.match(r"^&mut std::collections::HashMap<u16, std::sync::Arc<\(essential_vm::stack::Stack, essential_vm::memory::Memory\)>", tys[0]):
+                    muts.append((g, bb, M.callee_of(t).split("::")[-1]))
+        bad = [(g.loc(bb), c) for g, bb, c in muts if c not in ("insert", "entry", "extend", "get", "contains_key", "len", "is_empty", "get_mut")]
+        ctx.ob("R4", "parent-outputs-are-only-added-never-dropped", len(muts) >= 2 and not bad, bad[0][0] if bad else f_.loc(0),
+               "mutating calls on the node-output maps: %s" % sorted({c for _, _, c in muts}) + ("; dropping: %s" % bad if bad else ""), f_)
+    # a malformed edge list is an error only because node_edges answers None for it (C18 R3, re-evaluated under R1)
+    from . import C18
+    C18.node_edges_rules(ctx, prog, "R1")
     ctx.rule("R6", "per-solution data stays with its solution: the cross-pass cache, the predicate, the index and the outputs of solution i are those of position i")
     r6(ctx, prog)
     f = prog.fn(INNER)
